@@ -400,9 +400,9 @@ func genHist(t *rapid.T) HCase {
 
 var subHist = runlog.Register(&runlog.Sub[HCase]{
 	Name: "option-history",
-	Rule: "a struct type as in twin-differential (no interface fields) whose fields carry TWO tag sets - config names, inline and list policy flags under `config` and under `alt` (same name or another one, inline as under `config`, policy flags drawn anew), validators under `validate` and under `strict` (a field tagged under `validate` carries the same validators, other validators / parameters of its kind, or none under `strict`; about a quarter of the other fields carry validators under `strict` only; 5 catalogue structs have hand-written `strict` tags next to their `validate` tags or instead of one; 1 type in 8 has no second tag sets at all) - and a history of 1 to 3 Unpack calls in one process. Every call has its own options: StructTag (not given, `config` explicitly, `alt`, a tag name no field carries, the empty name), ValidatorTag (not given, `validate` explicitly, `strict`, a tag name no field carries, the empty name), the two in either order, PathSep(\".\") in 1 of 4 calls, VarExp, a global list policy; its own configuration written for the names the call reads (in 1 of 4 later calls instead the *Config object of the previous call again, which was written for the names that call read) and a newly pre-filled target (zero value in 1 of 6) or, in 1 of 4 later calls, the target the previous call filled successfully. Every call is decided like a case of twin-differential under the VIEW its options select (names and flags of the selected struct tag, lower-cased Go names without flags under a tag name no field carries; validators of the selected validator tag, none under a tag name no field carries; Validate() methods always): unpack into the twin type (same tag sets without validator tags) in the same state gives R; the reference validators of the view walk R; all accept => Unpack succeeds with a result equal to R, one rejects => Unpack fails naming the field (by the name the call reads it under) or an enclosing one. Calls whose configuration does not convert under the names they read are skipped; a case counts if one call was evaluated. Non-trivial: some call is non-trivial in the sense of twin-differential. Distinct: hash of the whole case.",
+	Rule: "a struct type as in twin-differential (1 in 4 with interface{} fields / collections of interface{} pre-filled with typed values whose dynamic types carry tags under the default names only; 1 case in 10 unpacks into a map, slice or array of validated elements instead) whose fields carry TWO tag sets - config names, inline and list policy flags under `config` and under `alt` (same name or another one, inline as under `config`, policy flags drawn anew), validators under `validate` and under `strict` (a field tagged under `validate` carries the same validators, other validators / parameters of its kind, or none under `strict`; about a quarter of the other fields carry validators under `strict` only; 5 catalogue structs have hand-written `strict` tags next to their `validate` tags or instead of one; 1 type in 8 has no generated second tag sets) - and a history of 1 to 3 Unpack calls in one process. Every call has its own options: StructTag (not given, `config` explicitly, `alt`, a tag name no field carries, the empty name), ValidatorTag (not given, `validate` explicitly, `strict`, a tag name no field carries, the empty name), the two in either order, PathSep(\".\") in 1 of 4 calls, VarExp, a global list policy (replace, append, prepend, replace arrays only), in 1 of 5 calls Field{Append,Prepend,Replace,Merge}Values for one top-level field under the name the call reads it; its own configuration written for the names the call reads (in 1 of 4 later calls instead the *Config object of the previous call again, which was written for the names that call read) and a newly pre-filled target (zero value in 1 of 6) or, in 1 of 4 later calls, the target the previous call filled successfully. Every call is decided like a case of twin-differential under the VIEW its options select (names and flags of the selected struct tag, lower-cased Go names without flags under a tag name no field carries; validators of the selected validator tag, none under a tag name no field carries; Validate() methods always): unpack into the twin type (same tag sets without validator tags, twins of the catalogue types) in the same state gives R; the reference validators of the view walk R; all accept => Unpack succeeds with a result equal to R, one rejects => Unpack fails naming the field (by the name the call reads it under) or an enclosing one. Calls whose configuration does not convert under the names they read are skipped; a case counts if one call was evaluated. The classes `history: the verdict of a call differs ...` count the cases in which a call must decide otherwise than it would with the validator tag an earlier call of the same history selected. Non-trivial: some call is non-trivial in the sense of twin-differential. Distinct: hash of the whole case.",
 	Gen:  genHist,
 	Run:  runHist,
 })
 
-func TestOptionHistory(t *testing.T) { subHist.Check(t, 60000, 1000000) }
+func TestOptionHistory(t *testing.T) { subHist.Check(t, 48000, 800000) }
